@@ -8,7 +8,7 @@ import Dino.Dynamics
   `low_storage_runge_kutta_crank_nicolson` / `imex_runge_kutta` adds (in units of `dt`) to a
   quantity whose explicit tendency is the constant one and whose implicit tendency is zero
   (`sim_time` of `PrimitiveEquationsWithTime`);
-* `stepWithFilters` / `run`: `time_integration.step_with_filters` and a history of filtered steps;
+* `stepWithFilters` / `runSteps`: `time_integration.step_with_filters` and a history of filtered steps;
 * `TM`: a `tree_math` vector together with the Python scalar `0` that the integrators start their
   accumulators from (`h = 0`, `sum(...)`), and the arithmetic of `primitive_equations.StateWithTime`
   / `shallow_water.State` as `tree_math` structs;
@@ -55,7 +55,7 @@ def stepWithFilters (step : U → U) (filters : List (U → U → U)) (u : U) : 
   filters.foldl (fun uNext flt => flt u uNext) (step u)
 
 /-- a history: any list of (step function, filters) pairs applied in order -/
-def run (steps : List ((U → U) × List (U → U → U))) (u : U) : U :=
+def runSteps (steps : List ((U → U) × List (U → U → U))) (u : U) : U :=
   steps.foldl (fun x st => stepWithFilters st.1 st.2 x) u
 
 /-- the states visited by a history (initial state first) -/
@@ -65,6 +65,76 @@ def trace (steps : List ((U → U) × List (U → U → U))) (u : U) : List U :=
   | st :: rest => u :: trace rest (stepWithFilters st.1 st.2 u)
 
 end hist
+
+/-! ## the integrators of `time_integration.py` as one family -/
+section schemes
+variable {K V : Type} [Add K] [Sub K] [Mul K] [Div K] [Neg K] [Zero K] [One K]
+variable [Add V] [Zero V] [SMul K V]
+
+/-- the one-state integrators: `backward_forward_euler`, `crank_nicolson_rk2`,
+ `low_storage_runge_kutta_crank_nicolson(α, β, γ)` (hence `crank_nicolson_rk3/rk4`) and
+ `imex_runge_kutta(tableau)` (hence `imex_rk_sil3`); `semi_implicit_leapfrog` acts on pairs and is
+ treated separately -/
+inductive Scheme (K : Type) where
+  | bfe
+  | cnrk2
+  | lsrk (αs βs γs : List K)
+  | tableau (nz : K → Bool) (t : Tableau K)
+
+/-- the step function of the scheme; `none` = the factory raises `ValueError` -/
+def Scheme.step (e : ImEx K V) (dt : K) : Scheme K → Option (V → V)
+  | .bfe => some (Imex.bfe e dt)
+  | .cnrk2 => some (Imex.cnrk2 e dt)
+  | .lsrk αs βs γs => Imex.lsrk e dt αs βs γs
+  | .tableau nz t => Imex.imexRK nz e dt t
+
+/-- what one step adds to a clock (explicit tendency one, implicit zero), in units of `dt` -/
+def Scheme.adv : Scheme K → K
+  | .bfe => 1
+  | .cnrk2 => 1
+  | .lsrk αs βs γs => lsrkAdv αs βs γs
+  | .tableau nz t => tabAdv nz t
+
+/-- one entry of a history of one-state steps: the scheme, its step size, and the state filters
+ (`runge_kutta_step_filter(f)`) applied after the step by `step_with_filters` -/
+structure Entry (K V : Type) where
+  sch : Scheme K
+  dt : K
+  filters : List (V → V)
+
+/-- run a history; `none` = some factory raised `ValueError` -/
+def runHistory (e : ImEx K V) : List (Entry K V) → V → Option V
+  | [], u => some u
+  | en :: rest, u =>
+    match en.sch.step e en.dt with
+    | none => none
+    | some f => runHistory e rest (stepWithFilters f (en.filters.map Filters.rkStepFilter) u)
+
+/-- the clock advance of a history -/
+def historyAdv : List (Entry K V) → K
+  | [] => 0
+  | en :: rest => en.dt * en.sch.adv + historyAdv rest
+
+/-- `robert_asselin_leapfrog_filter(r)` on `tree_math` vectors:
+ `((1 - 2r)·current + r·(previous + future), future)` -/
+def robertAsselin (r : K) (u uNext : V × V) : V × V :=
+  ((1 - (1 + 1) * r) • u.2 + r • (u.1 + uNext.2), uNext.2)
+
+/-- the filters of a leapfrog step: `leapfrog_step_filter(f)` or `robert_asselin_leapfrog_filter(r)` -/
+inductive LfFilter (K V : Type) where
+  | state (g : V → V)
+  | ra (r : K)
+
+def LfFilter.fn : LfFilter K V → (V × V → V × V → V × V)
+  | .state g => Filters.leapfrogStepFilter g
+  | .ra r => robertAsselin r
+
+/-- `k` filtered `semi_implicit_leapfrog` steps on the pair `(previous, current)` -/
+def runLeapfrog (e : ImEx K V) (dt α : K) (filters : List (LfFilter K V)) (k : Nat) (u : V × V) :
+    V × V :=
+  runSteps (List.replicate k (Imex.leapfrog e dt α, filters.map LfFilter.fn)) u
+
+end schemes
 
 /-! ## `tree_math` vectors with the Python scalar `0` -/
 
